@@ -28,6 +28,11 @@ type Spec struct {
 	// whatever the library initialises lazily at the first validation of a value
 	// is then first touched among the concurrent calls.
 	PlainDoc bool `json:"plain_doc,omitempty"`
+	// UniqueChecker "panicky": the application registered its own array
+	// uniqueness checker (openapi3.RegisterArrayUniqueItemsChecker), a fast one
+	// that uses the items as map keys and therefore panics on object items.
+	// Registered before the callers start, removed after the run.
+	UniqueChecker string `json:"unique_checker,omitempty"`
 }
 
 func petBody(r *simfw.RNG, m string, valid bool) string {
@@ -184,7 +189,7 @@ func genOp(r *simfw.RNG, m string) Op {
 		}
 		return Op{Kind: "vreq", Router: rt, Method: "POST", Path: ver + "/text", CT: "text/plain", Body: simfw.Pick(r, []string{"hello there " + m + "t", "goodbye " + m + "t", "hello"}), Regex: simfw.Pick(r, []string{"", "any", "none"})}
 	case 11, 12:
-		o := Op{Kind: "vresp", Router: rt, Method: "GET", Path: ver + "/pets/9", Multi: r.Chance(1, 3)}
+		o := Op{Kind: "vresp", Router: rt, Method: "GET", Path: ver + "/pets/9", Multi: r.Chance(1, 3), CancelOnRead: r.Chance(1, 4)}
 		switch r.Intn(5) {
 		case 0, 1:
 			o.Status, o.RespBody = 200, fmt.Sprintf(`{"id":%d,"name":"Rex %s","kind":{"species":"cat"}}`, r.Range(1, 99), m)
@@ -211,6 +216,14 @@ func genOp(r *simfw.RNG, m string) Op {
 			return Op{Kind: "vreq", Router: rt, Method: "POST", Path: ver + "/vendor", CT: "application/vnd." + m + "+json", Body: simfw.Pick(r, []string{`{"v":1}`, `{"v":"x"}`, `{}`})}
 		}
 	case 13:
+		if r.Chance(1, 6) {
+			// a discriminator whose mapping uses bare schema names
+			return Op{Kind: "visit", Schema: "Beast", Value: simfw.Pick(r, []string{`{"species":"cat","lives":9}`, `{"species":"dog","tricks":["sit"]}`, `{"species":"cow"}`}), Mode: simfw.Pick(r, []string{"default", "failfast", "multi"})}
+		}
+		if r.Chance(1, 6) {
+			// object items in an array that must hold unique items (a registered uniqueness checker may not cope)
+			return Op{Kind: "visit", Schema: "Dog", Value: simfw.Pick(r, []string{`{"species":"dog","tricks":[{"x":1},{"x":1}]}`, `{"species":"dog","tricks":["sit","roll"]}`}), Mode: simfw.Pick(r, []string{"default", "failfast", "multi"})}
+		}
 		if r.Chance(1, 4) {
 			return Op{Kind: "visit", Schema: "Odd", Value: simfw.Pick(r, []string{`{"n":"fine","m":5}`, `{"n":"forbidden"}`, `{"m":500}`, `{"n":7,"m":"x"}`}), Mode: simfw.Pick(r, []string{"default", "default", "failfast", "multi"})}
 		}
@@ -306,6 +319,9 @@ func Gen(seed uint64, tier string) *Spec {
 		s.MapSeed = r.Uint64() | 1
 	}
 	s.ColdPatterns = r.Bool()
+	if r.Chance(1, 5) {
+		s.UniqueChecker = "panicky"
+	}
 	if strings.HasSuffix(tier, "/first") {
 		// first run of a process: cold for everything lazily initialised; callers go straight to validations
 		s.PlainDoc, s.ColdPatterns = true, true
